@@ -136,7 +136,7 @@ fn probe_all() -> String {
     s.push_str("declare -F | grep -c -E ' (f1|f2|f_heredoc)$'\n");
     s.push_str("alias a1 2>/dev/null || echo a1:noalias\n");
     s.push_str("alias a2 2>/dev/null || echo a2:noalias\n");
-    s.push_str("set -o | grep -E '^(pipefail|nounset|noglob|noclobber|allexport) '\n");
+    s.push_str("set -o | grep -E '^(pipefail|nounset|noglob|noclobber|allexport|xtrace|verbose) '\n");
     s.push_str("shopt -p nullglob extglob dotglob nocasematch\n");
     s.push_str("pwd\n");
     s.push_str("dirs -l -p\n");
@@ -300,6 +300,9 @@ fn systematic_histories() -> Vec<History> {
         ),
         ("inherited-empty", "VS_INHERITED=", "true", "VS_INHERITED=again"),
         ("inherited-export-n", "export -n VS_INHERITED", "VS_INHERITED=still-not-exported", "export VS_INHERITED"),
+        // (the tracing options carry like any other; what they print goes to stderr, which this
+        // lane does not compare)
+        ("xtrace", "set -x", "VS1=traced", "set +x; set -v"),
         // (finding AB: `set -a` must not turn the variables that are restored into exported ones)
         ("allexport", "VS1=before-allexport; VA1=(x y)", "set -a", "VE2=new-under-allexport; set +a; VS1=\"$VS1 changed\""),
         // (finding W: an alias whose expansion starts with its own name, used in a function body,
@@ -1354,6 +1357,12 @@ fn check_env_case(c: &EnvCase) -> Result<Option<String>, String> {
         cmd.arg(g);
     }
     cmd.env_remove("SCRUT_VERIF_SCENARIO").env_remove("SCRUT_VERIF_LOG").env("TMPDIR", &tmp).env("HOME", "/nonexistent-home").current_dir(&base);
+    // (scrut itself is started with values for "its" variables in half of the cases)
+    if (c.n_docs + c.n_tests) % 2 == 0 {
+        for (k, v) in [("COLUMNS", "132"), ("LANG", "C.UTF-8"), ("LC_ALL", "C.UTF-8"), ("TZ", "Europe/Berlin"), ("CDPATH", "/usr:/tmp"), ("GREP_OPTIONS", "--color=always"), ("TESTDIR", "/inherited/testdir"), ("TESTFILE", "inherited.md"), ("SCRUT_TEST", "inherited.md:1")] {
+            cmd.env(k, v);
+        }
+    }
     cmd.stdin(Stdio::null()).stdout(Stdio::piped()).stderr(Stdio::piped());
     let out = cmd.output().map_err(|e| e.to_string())?;
     let mut wrong: Vec<String> = vec![];
